@@ -117,11 +117,41 @@ def families(rng):
     F['cyclic-dict-ring-commented'] = lambda n: ring(n, 'c%d')
     F['cyclic-dict-ring-long-comments'] = lambda n: ring(n, 'a rather long comment that will not fit at the end of the line, a rather long comment %d')
     F['cyclic-list-ring-commented'] = lambda n: list_ring(n)
+    # nesting through every bundled printer and through subclasses of the base types: "nested calls ... wrapper recipes"
+    import collections, functools, types
+    class MyDict(dict): pass
+    class MyList(list): pass
+    class MyTuple(tuple): pass
+    class MySet(set): pass
+    class MyFrozen(frozenset): pass
+    class MyOD(collections.OrderedDict): pass
+    NT = collections.namedtuple('NT', ['left', 'right'])
+    F['nested-dict-subclass'] = lambda n: nest(n, lambda v, i: MyDict({'k': v}))
+    F['nested-dict-subclass-2keys'] = lambda n: nest(n, lambda v, i: MyDict({'a': v, 'b': i}))
+    F['nested-list-subclass'] = lambda n: nest(n, lambda v, i: MyList([v]))
+    F['nested-tuple-subclass'] = lambda n: nest(n, lambda v, i: MyTuple((v,)))
+    F['nested-frozensets'] = lambda n: nest(n, lambda v, i: frozenset([v]))
+    F['nested-frozenset-subclass'] = lambda n: nest(n, lambda v, i: MyFrozen([v]))
+    F['set-subclass-of-nested-frozensets'] = lambda n: MySet([nest(n, lambda v, i: frozenset([v, i]))])
+    F['nested-ordereddict'] = lambda n: nest(n, lambda v, i: collections.OrderedDict([('k', v)]))
+    F['nested-ordereddict-subclass'] = lambda n: nest(n, lambda v, i: MyOD([('k', v)]))
+    F['nested-defaultdict'] = lambda n: nest(n, lambda v, i: collections.defaultdict(list, {'k': v}))
+    F['nested-counter'] = lambda n: nest(n, lambda v, i: collections.Counter({'k': v}))
+    F['nested-chainmap'] = lambda n: nest(n, lambda v, i: collections.ChainMap({'k': v}, {'j': i}))
+    F['nested-deque'] = lambda n: nest(n, lambda v, i: collections.deque([v], maxlen=3))
+    F['nested-namespace'] = lambda n: nest(n, lambda v, i: types.SimpleNamespace(child=v))
+    F['nested-namedtuple'] = lambda n: nest(n, lambda v, i: NT(i, v))
+    F['nested-partial'] = lambda n: nest(n, lambda v, i: functools.partial(H, v, key=i))
+    F['nested-mappingproxy'] = lambda n: nest(n, lambda v, i: types.MappingProxyType({'k': v}))
+    F['nested-exception'] = lambda n: nest(n, lambda v, i: ValueError('msg', v))
+    F['nested-tuple-as-dict-key'] = lambda n: {nest(n, lambda v, i: (v, i)): 'x'}
     # seeded random wrapper recipes
     wrappers = [lambda v, i: [v], lambda v, i: {'k': v}, lambda v, i: (v, i), lambda v, i: H(v),
                 lambda v, i: [c(v, 'c')], lambda v, i: {'k': c(v, 'c')}, lambda v, i: {'a': 1, 'b': v, 'c': 3},
-                lambda v, i: [v, 'some string ' * 3]]
-    for r in range(6):
+                lambda v, i: [v, 'some string ' * 3], lambda v, i: MyDict({'k': v}), lambda v, i: MyList([v, i]),
+                lambda v, i: collections.OrderedDict([('k', v)]), lambda v, i: NT(v, i),
+                lambda v, i: types.SimpleNamespace(a=v), lambda v, i: collections.deque([v])]
+    for r in range(10):
         recipe = [rng.choice(wrappers) for _ in range(5)]
         F['random-recipe-%d' % r] = (lambda n, recipe=recipe: nest(n, lambda v, i: recipe[i % len(recipe)](v, i)))
     return F
